@@ -4,7 +4,7 @@
    GLibSem.gexec accepts — [gapp_session] / [gapp_run_all] are ScreenSem.app_session / app_run_all with
    [exec] replaced by [gexec false] and [lstate] by [gstate].  Definitions only. *)
 From Coq Require Import ZArith NArith List Bool.
-From SL Require Import PyInt LoopSem ScreenSem GLibSem.
+From SL Require Import PyInt LoopSem ScreenSem GLibSem GLibFrag.
 Import ListNotations.
 
 Fixpoint gapp_session (specs : nat -> screen_spec) (fuel : nat) (acts : list saction) (s : gstate sstate)
@@ -33,3 +33,37 @@ Definition gapp_run_all (specs : nat -> screen_spec) (specl : list screen_spec) 
   let s0 := ginit_state (sstate0 specl typed quit run_empty) in
   let '(_, s1) := gexec false (screen_code specs) 20 (GProg app_initialize) s0 in
   gapp_session specs fuel acts s1.
+
+(* ---- applications (ScreenSem): the checked run of app_session / app_run_all ---- *)
+
+Fixpoint fapp_session (specs : nat -> screen_spec) (fuel : nat) (acts : list saction) (s : lstate sstate)
+  : option (list outcome * lstate sstate) :=
+  match acts with
+  | [] => Some ([], s)
+  | a :: r =>
+    obind (match a with
+           | SACmds l => fexec (screen_code specs) fuel (CProg (run_cmds specs 0 0 l)) (emit ETop s)
+           | SARun =>
+             match st_stack (ust s), st_run_empty (ust s) with
+             | [], false => None                                      (* NothingScheduledError *)
+             | _, _ => fexec (screen_code specs) fuel CRun (emit ETop s)
+             end
+           end) (fun '(o, s1) =>
+    match o with
+    | OBlocked | OFuel => Some ([o], s1)
+    | ONormal => obind (fapp_session specs fuel r s1) (fun '(os, s2) => Some (o :: os, s2))
+    | OThrow _ => None
+    end)
+  end.
+
+Definition in_app_fragment (specs : nat -> screen_spec) (specl : list screen_spec) (typed : list (option str))
+           (quit : option nat) (run_empty : bool) (fuel : nat) (acts : list saction) : bool :=
+  let s0 := init_state (sstate0 specl typed quit run_empty) in
+  match fexec (screen_code specs) 20 (CProg app_initialize) s0 with
+  | Some (ONormal, s1) =>
+    match fapp_session specs fuel acts s1 with
+    | Some (os, _) => forallb (fun o => match o with OFuel => false | _ => true end) os
+    | None => false
+    end
+  | _ => false
+  end.
